@@ -652,8 +652,9 @@ void
 		}
 		Glu->stack.top1 += extra;
 		Glu->stack.used += extra;
-		if ( type == UCOL ) {
-		    Glu->stack.top1 += extra;   /* Add same amount for USUB */
+		if ( type == UCOL ) { /* Add the same number of entries for USUB */
+		    extra = (new_len - *prev_len) * sizeof(int_t);
+		    Glu->stack.top1 += extra;
 		    Glu->stack.used += extra;
 		}
 		
